@@ -70,7 +70,7 @@ OBLIGATIONS += [
     Obl(name="nr_roundtrip_listed", module="h_nrange", func="nr_roundtrip_listed", shadow=True, timeout=300, replay="r_h_nrange:nr_roundtrip_listed", weight=45,
         bounds="9 representative longer names chosen by a symbolic index (the solver only picks the case), areas with corner in 0..2", encodes=_NENC, stubs=_NSTUB),
     Obl(name="rename_updates_ranges", module="h_nrange", func="rename_updates_ranges", shadow=True, timeout=600, replay="r_h_nrange:rename_updates_ranges", weight=135,
-        bounds="spreadsheet body with tables t1, zz and one named range on each; t1 renamed to a symbolic accepted name of 1..2 characters over {a, b, space}",
+        bounds="spreadsheet body with tables t1 and t (a name contained in the other) and one named range on each; t1 renamed to a symbolic accepted name of 1..2 characters over {a, b, space}",
         encodes=_NENC + ["src/odfdo/table.py:Table.name (setter),get_named_ranges,NamedRange.set_table_name", "src/odfdo/element.py:get_named_ranges,get_named_range,document_body"], stubs=_NSTUB),
     Obl(name="nr_read_is_pure", module="h_nrange", func="nr_read_is_pure", shadow=True, timeout=400, replay="r_h_nrange:nr_read_is_pure", weight=60,
         bounds="stored named range with base cell (0..3, 0..3) independent of the 2x2 range at (0..2, 0..2)", encodes=_NENC, stubs=_NSTUB),
